@@ -8,6 +8,7 @@ import (
 	_ "time/tzdata" // embedded zone database: the process's local zone is a configuration the code could observe
 
 	"go.lstv.dev/util/date"
+	"verif/firstuse"
 	"verif/libdefaults"
 	"verif/mc"
 	"verif/oracle"
@@ -193,6 +194,7 @@ var classNames = [...]string{"accept", "reject_basic_disabled", "reject"}
 func main() {
 	mc.Main("C09", "strings are enumerated completely over the stated alphabets/grids; a point is (text, rule, MaxInputLength, entry point); "+
 		"non-trivial = the reference recogniser finds the YYYY[-]MM[-]DD shape (whether or not the day exists)", func(r *mc.Run) {
+		firstuse.Phase(r, map[string][]string{"date": {"parse"}})
 		r.Reset = reset
 		reset()
 		p := mc.NewProbe(r, "parse", setup, probe)
